@@ -521,8 +521,14 @@ func (a *Attacker) Stop() bool {
 	case <-a.stopch:
 		return false
 	default:
-		a.stopOnce.Do(func() { close(a.stopch) })
-		return true
+		// Only the call that actually closes the channel reports having
+		// signalled the stop; a concurrent call that lost the race returns false.
+		first := false
+		a.stopOnce.Do(func() {
+			close(a.stopch)
+			first = true
+		})
+		return first
 	}
 }
 
